@@ -288,13 +288,20 @@ impl<T: Transport> Session<T> {
         let message_id = self.last_message_id.increment();
         let request = O::new(&self.context, build_fn)
             .map(|operation| rpc::Request::new(message_id, operation))?;
+        // Register the request and release the map before sending: a reply future that is
+        // reading from the transport needs the map to park a reply it has already taken off the
+        // wire, and must not be left waiting for it (and lose that reply if dropped) while the
+        // send is blocked.
         #[allow(clippy::significant_drop_in_scrutinee)]
         match self.requests.lock().await.entry(message_id) {
             Entry::Occupied(_) => return Err(Error::MessageIdCollision { message_id }),
             Entry::Vacant(entry) => {
-                request.send(&mut *self.transport_tx.lock().await).await?;
                 _ = entry.insert(OutstandingRequest::Pending);
             }
+        };
+        if let Err(err) = request.send(&mut *self.transport_tx.lock().await).await {
+            _ = self.requests.lock().await.remove(&message_id);
+            return Err(err);
         };
         let requests = self.requests.clone();
         let rx = self.transport_rx.clone();
